@@ -8,6 +8,7 @@ open Stackage
 inductive CHOp where
   | hold
   | free
+  | two (a b : CondOp)                   -- two calls in one step (nothing is observed in between)
   | op (o : CondOp)
   | cond (kw : Val) (o : Op) (ex : Val)
   | bad
@@ -31,6 +32,9 @@ def parseCHOp (ts : List String) : CHOp :=
   | ["ro", b] => .op (.setState Gen.flag_ronly (some (b == "1")))
   | ["enc1", a] => .op (.setEncapOne (unhx a))
   | ["enc2", a, b] => .op (.setEncapPair (unhx a) (unhx b))
+  | ["enc0"] => .op .setEncapNone
+  | ["reenc1", a] => .two .setEncapNone (.setEncapOne (unhx a))
+  | ["reenc2", a, b] => .two .setEncapNone (.setEncapPair (unhx a) (unhx b))
   | ["err", n] => .op (.setErr (if n == "0" then none else some (toNat n)))
   | _ => .bad
 
@@ -97,6 +101,7 @@ def runCondHist (payload : String) : String × String × String :=
       let h' := match op with
         | .hold => acc.1.hold
         | .free => acc.1.free Cnd.readOnly
+        | .two a b => acc.1.step false ((acc.1.cur.apply a).apply b)
         | .op o => acc.1.step op.replaces (acc.1.cur.apply o)
         | .cond kw o ex => acc.1.step true (Cnd.cond closures kw o ex)
         | .bad => acc.1
@@ -105,6 +110,7 @@ def runCondHist (payload : String) : String × String × String :=
       let h' := match op with
         | .hold => acc.1.hold
         | .free => acc.1.free (fun s => s.ro)
+        | .two a b => acc.1.step false (CondSpec.step closures (CondSpec.step closures acc.1.cur a) b)
         | .op o => acc.1.step op.replaces (CondSpec.step closures acc.1.cur o)
         | .cond kw o ex => acc.1.step true (CondSpec.cond closures kw o ex)
         | .bad => acc.1
